@@ -172,8 +172,8 @@ class Scheduler:
         return 1 << 60
 
     # ---- the points -----------------------------------------------------------------------------------
-    def point(self, me: SimThread):
-        """An ordinary pre-emption point (line / function entry)."""
+    def point(self, me: SimThread, entry: bool = False):
+        """An ordinary pre-emption point (line of repo code / function entry in the parser runtime)."""
         self.total_events += 1
         me.events += 1
         if self.total_events > self.step_cap:
@@ -198,6 +198,11 @@ class Scheduler:
             self._pct_point(me)
         elif k == "skew":
             self._skew_point(me)
+        elif k == "repo":
+            # hand-written repo code is where newly shared state would live: switch often there, rarely inside the
+            # parser runtime, so that threads that reach repo code at different times still meet in it
+            if self.rng.random() < (st["p_entry"] if entry else st["p_line"]):
+                self._switch_random(me, "point")
         # site-biased strategies only act at shared points
 
     def shared_point(self, me: SimThread, site):
@@ -229,6 +234,9 @@ class Scheduler:
             self._pct_point(me)
         elif k == "skew":
             self._skew_point(me)
+        elif k == "repo":
+            if self.rng.random() < st["p_line"]:
+                self._switch_random(me, "shared")
 
     _burst_left = 0
 
@@ -328,7 +336,7 @@ class Scheduler:
         me = self.by_ident.get(threading.get_ident())
         if me is None or me is not self.current:
             return None
-        self.point(me)
+        self.point(me, True)
         return None
 
     def _cb_instr(self, code, offset):
